@@ -437,6 +437,20 @@ def pair_specs(avoid_kinds):
     return out
 
 
+def json_crosscheck(col, case, ev):
+    """thorough tier: the flows written to taint/taint_data_flow.json by a non-quiet run are those find_flows returned"""
+    lr = tg.run_lian(case["files"], case["rules"], read_json=True)
+    col.extra["json_crosschecks"] += 1
+    jf = lr.get("json_flows")
+    if jf is None:
+        if lr["flows"]:
+            col.discrepancy((ID, "json", "file-missing"), "flows %s reported but taint_data_flow.json was not written" % sorted(lr["flows"]), slim(case))
+        return
+    if jf != lr["flows"]:
+        col.discrepancy((ID, "json", "differs-from-find_flows"),
+                        "taint_data_flow.json lists %s, find_flows returned %s" % (sorted(jf), sorted(lr["flows"])), slim(case))
+
+
 def sweep_shard(arg):
     items, avoid = arg
     col = Collector()
@@ -457,6 +471,8 @@ def sweep_shard(arg):
             col.error("sweep item %s has no ground-truth flow (%s)" % (name, ev["gt_error"]))
         if nontrivial(case, ev):
             col.nontriv({"f": case["files"], "r": case["rules"]})
+        if name.startswith("json:"):
+            json_crosscheck(col, case, ev)
         for sig, what, sub in ds:
             col.discrepancy(sig, what, slim(sub))
             if sig[1] == "missed":
@@ -508,7 +524,8 @@ def random_shard(arg):
     import hypothesis
     from hypothesis import settings, HealthCheck
     col = Collector()
-    budget = [80]
+    budget0 = 80 + 2 * int(n_examples)
+    budget = [budget0]
     memo = {}
     avoid = sorted(avoid)
     src_kinds = [k for k in tg.SOURCE_KINDS if ("src:" + k) not in avoid] or ["method"]
@@ -561,7 +578,7 @@ def random_shard(arg):
             col.discrepancy(sig, what, slim(sub))
 
     prop()
-    col.extra["attribution_runs"] += 80 - budget[0]
+    col.extra["attribution_runs"] += budget0 - budget[0]
     return col
 
 
@@ -674,6 +691,8 @@ def main(tier, seed, t0):
     # 2. every link kind alone (+ one representative per root-cause family; thorough: every ordered pair)
     items = sweep_specs(avoid)
     if tier != "quick":
+        # single links once more with a non-quiet run whose taint_data_flow.json is compared with find_flows
+        items.extend([("json:" + n, sp) for n, sp in items if not n.startswith(("triple:", "family:"))][:60])
         items.extend(pair_specs(avoid))
     nsh = common.NCPU * (1 if tier == "quick" else 4)
     per = max(1, (len(items) + nsh - 1) // nsh)
@@ -688,7 +707,7 @@ def main(tier, seed, t0):
     a2, combos, uniq = step_over_plan(observed | set(known_open_missed()))
     avoid |= a2
     # 3. random chains
-    total = 520 if tier == "quick" else 25000
+    total = 520 if tier == "quick" else 16000
     nsh = common.NCPU if tier == "quick" else common.NCPU * 4
     per = total // nsh + 1
     args = [(common.shard_seed(seed, i), per, sorted(avoid), combos, uniq) for i in range(nsh)]
